@@ -10,7 +10,11 @@ RELATED = {"C12D": ["C05"], "C17D": ["C04", "C15"], "C01C": ["C03"], "C01D": ["C
            "C07B": ["C04", "C06"], "C14B": ["C15"], "C15D": ["C13"], "C05D": ["C07"], "C17B": ["C16"], "C07A": ["C04"], "C04B": ["C07"]}
 tier, jobs = "quick", 3
 names = []
+root = None
 for a in sys.argv[1:]:
+    if a.startswith("--root="):
+        root = a.split("=")[1]
+        continue
     if a.startswith("--tier="):
         tier = a.split("=")[1]
     elif a.startswith("--jobs="):
@@ -36,6 +40,8 @@ def worker(i, items):
     try:
         for name, pid in items:
             patch = "%s/seeded/%s/patch.diff" % (ROOT, name)
+            if root:
+                patch = "%s/%s.out/%s.patch.diff" % (root, name[:3], {"C": "A", "D": "B"}[name[3]])
             a = subprocess.run(["git", "-C", r, "apply", patch], capture_output=True, text=True)
             if a.returncode != 0:
                 out.append(dict(seed=name, check=pid, rc="does-not-apply"))
@@ -68,6 +74,10 @@ for r in res:
     by.setdefault(r["seed"], {})[r["check"]] = {k: r[k] for k in r if k not in ("seed", "check")}
 heads = dict(repo=subprocess.run(["git", "-C", "/repo", "rev-parse", "--short", "HEAD"], capture_output=True, text=True).stdout.strip(),
              verif=subprocess.run(["git", "-C", "/verif", "rev-parse", "--short", "HEAD"], capture_output=True, text=True).stdout.strip())
+if root:
+    json.dump(by, open("/tmp/seedmatrix_%s.json" % os.path.basename(root), "w"), indent=1)
+    print(json.dumps({n: {c: r["rc"] for c, r in v.items()} for n, v in by.items()}))
+    sys.exit(0)
 for n, checks in by.items():
     mp = "%s/seeded/%s/meta.json" % (ROOT, n)
     m = json.load(open(mp))
